@@ -428,6 +428,10 @@ impl Run {
 
     /// Re-run the committed regression replays of this property (seconds-long replay tier).
     pub fn regressions(&self, replay: &dyn Fn(&str, &Value) -> Option<CheckResult>) {
+        if std::env::var("DLTVERIF_SKIP_REGRESSIONS").is_ok() {
+            // development aid for sensitivity experiments: judge the generated search alone
+            return;
+        }
         let dir = self.root.join("regressions");
         let mut files: Vec<PathBuf> = match std::fs::read_dir(&dir) {
             Ok(rd) => rd.filter_map(|e| e.ok().map(|e| e.path())).collect(),
